@@ -46,9 +46,9 @@ COMPOSITION: `processBlock_eq` (every fork; coded order = spec order up to the t
 the spec — the operation-count limits and the deposit count —, which the proof commutes), `postSlotTransition_eq`
 (block signature, `process_block`, state root) and `stateTransition_eq` (with C02's full `processSlots_eq` in front).
 
-The composition is stated for an arbitrary invariant `Inv ctx st` and takes `OpSteps cfg block F Inv` as its premise:
-per operation kind, (1) under `Inv` the model simulates the specification and (2) the model's accepted result satisfies
-`Inv` again. (1) is PROVED for every operation kind from the hypotheses of its `_eq` theorem (`sim_header` … `sim_sync`
+The composition is stated for an arbitrary counter-indexed invariant `Inv k ctx st` (`k` = units of budget left) and takes
+`OpSteps cfg block F Inv` as its premise: per operation kind, (1) under `Inv (k+1)` the model simulates the specification
+and (2) the model's accepted result satisfies `Inv k`; a block starts with `blockNeed block k` units (one per step). (1) is PROVED for every operation kind from the hypotheses of its `_eq` theorem (`sim_header` … `sim_sync`
 in `Proofs/Lemmas/BeaconBlockSteps.lean`, `Sim.of_eq` of the `toRes` equalities). (2), for ONE invariant that implies
 all those hypotheses at once, is proved for voluntary exits, deposits' registry part, BLS changes and slashings
 (`WF_preserved_block_partial`, `WF_preserved_slashing`, `SlashInv_step`) and is NOT proved for the magnitude
@@ -502,46 +502,47 @@ under `Inv` the model simulates the specification — proved, `sim_*` — and ke
 fork simulates `process_block`: whenever the specification accepts the block, the model accepts it with the same
 post-state; whenever the specification rejects it (`invalid`), the model rejects it; and the model never panics. The
 block must be a value of the block type (`check_types`: the per-element SSZ limits that zrnt enforces when decoding). -/
-theorem processBlock_eq {cfg : Config} {block : SignedBlock} {F : Fork} {Inv : Ctx → State → Prop}
-    (H : OpSteps cfg block F Inv) (ctx : Ctx) (st : State) (hi : Inv ctx st)
+theorem processBlock_eq {cfg : Config} {block : SignedBlock} {F : Fork} {Inv : Nat → Ctx → State → Prop}
+    (H : OpSteps cfg block F Inv) (k : Nat) (ctx : Ctx) (st : State) (hi : Inv (BlockM.blockNeed block k) ctx st)
     (htyped : Block.check_types cfg block = .ok ()) :
-    Sim (Block.process_block cfg st block) (processBlock cfg ctx st block) :=
-  BlockM.processBlock_sim H ctx st hi htyped
+    Sim (Block.process_block cfg st block) (processBlock cfg ctx st block) ∧
+    ∀ st', processBlock cfg ctx st block = .ok st' → ∃ ctx', Inv k ctx' st' :=
+  ⟨BlockM.processBlock_sim H k ctx st hi htyped, BlockM.processBlock_inv H k ctx st hi⟩
 
 /-- `M_block_refines_S_partial` — the C01 direction of `processBlock_eq` and of `postSlotTransition_eq`: for every
 block the specification accepts, the model accepts with the same post-state. FULL statement: the same for
 `Inv := ` "reachable, `ctx = ctxOf cfg st`" without the premise `OpSteps`; missing for that: the preservation halves of
 `OpSteps` for one invariant implying every operation's hypotheses (see the file header). -/
-theorem M_block_refines_S_partial {cfg : Config} {block : SignedBlock} {F : Fork} {Inv : Ctx → State → Prop}
-    (H : OpSteps cfg block F Inv) (ctx : Ctx) (st : State) (hi : Inv ctx st)
+theorem M_block_refines_S_partial {cfg : Config} {block : SignedBlock} {F : Fork} {Inv : Nat → Ctx → State → Prop}
+    (H : OpSteps cfg block F Inv) (k : Nat) (ctx : Ctx) (st : State) (hi : Inv (BlockM.blockNeed block k) ctx st)
     (htyped : Block.check_types cfg block = .ok ()) (r : Bytes) (hroot : block.o_post_root = some r) :
     (∀ post, Block.process_block cfg st block = .ok post → processBlock cfg ctx st block = .ok post) ∧
     (∀ post, Block.state_transition_post_slots cfg st block = .ok post → postSlotTransition cfg ctx st block = .ok post) :=
-  ⟨(BlockM.processBlock_sim H ctx st hi htyped).1.1, (BlockM.postSlot_sim H ctx st hi htyped r hroot).1.1⟩
+  ⟨(BlockM.processBlock_sim H k ctx st hi htyped).1.1, (BlockM.postSlot_sim H k ctx st hi htyped r hroot).1.1⟩
 
 /-- `postSlotTransition_eq`: block signature (proposer key, oracle Boolean), `process_block`, state-root check —
 `common.PostSlotTransition` with result validation simulates `state_transition` after `process_slots`. -/
-theorem postSlotTransition_eq {cfg : Config} {block : SignedBlock} {F : Fork} {Inv : Ctx → State → Prop}
-    (H : OpSteps cfg block F Inv) (ctx : Ctx) (st : State) (hi : Inv ctx st)
+theorem postSlotTransition_eq {cfg : Config} {block : SignedBlock} {F : Fork} {Inv : Nat → Ctx → State → Prop}
+    (H : OpSteps cfg block F Inv) (k : Nat) (ctx : Ctx) (st : State) (hi : Inv (BlockM.blockNeed block k) ctx st)
     (htyped : Block.check_types cfg block = .ok ()) (r : Bytes) (hroot : block.o_post_root = some r) :
     Sim (Block.state_transition_post_slots cfg st block) (postSlotTransition cfg ctx st block) :=
-  BlockM.postSlot_sim H ctx st hi htyped r hroot
+  BlockM.postSlot_sim H k ctx st hi htyped r hroot
 
 /-- `stateTransition_eq` — `process_slots; verify signature; process_block; state-root check`: the code's
 `ProcessSlots` (C02's model `Impl.processSlots`, one `SlotInputs` per slot) followed by `PostSlotTransition` simulates
 the specification's `process_slots` (pure form) followed by `state_transition_post_slots`. The slots part is C02's
 FULL `processSlots_eq` under its invariant `Q` for the pre-state; the block part needs `Inv` for the state the slots
 reach, with the context of that state. -/
-theorem stateTransition_eq {cfg : Config} {block : SignedBlock} {F : Fork} {Inv : Ctx → State → Prop}
-    (H : OpSteps cfg block F Inv) (inps : List SlotInputs) (s : State) (C N : Nat) (ctx : Ctx)
+theorem stateTransition_eq {cfg : Config} {block : SignedBlock} {F : Fork} {Inv : Nat → Ctx → State → Prop}
+    (H : OpSteps cfg block F Inv) (k : Nat) (inps : List SlotInputs) (s : State) (C N : Nat) (ctx : Ctx)
     (hspe : 0 < cfg.SLOTS_PER_EPOCH) (hQ : Lemmas.Q cfg C N (get_current_epoch cfg s) s)
     (hbound : C + inps.length + N + 1 < FAR_FUTURE_EPOCH)
-    (hi : Inv ctx (process_slots_pure cfg inps s))
+    (hi : Inv (BlockM.blockNeed block k) ctx (process_slots_pure cfg inps s))
     (htyped : Block.check_types cfg block = .ok ()) (r : Bytes) (hroot : block.o_post_root = some r) :
     Sim (Block.state_transition_post_slots cfg (process_slots_pure cfg inps s) block)
       (postSlotTransition cfg ctx (Impl.processSlots cfg inps s) block) := by
   rw [Zrnt.Proofs.C02.processSlots_eq cfg inps s C N hspe hQ hbound]
-  exact BlockM.postSlot_sim H ctx _ hi htyped r hroot
+  exact BlockM.postSlot_sim H k ctx _ hi htyped r hroot
 
 /-- `M_block_refines_S` / `M_sound` WITHOUT the premise `OpSteps`, for phase0 blocks that carry no operations:
 container-fork check, type limits, header, RANDAO, eth1 vote, operation-count limits and the deposit-count rule; the
